@@ -11,7 +11,10 @@ Inductive lop :=
 | LRace (hs codes : list Z) (lockafter : bool)
 | LFailOpen (code : Z) (lockleft : bool)
 | LExtOpen (h code : Z) (lockafter : bool)
-| LScanFail (h code : Z) (lockafter : bool).   (* an open whose directory scan is made to fail *)
+| LScanFail (h code : Z) (lockafter : bool)    (* an open whose directory scan is made to fail *)
+| LCloseRace (h : Z) (closes uses : list Z) (lockafter : bool).
+(* LCloseRace: several goroutines call Close on the same handle at once while others use it
+   (codes: 0 ok, 3 "closed" error, 12 panic) *)
 
 Definition plop : P lop :=
   t <- pz ;;
@@ -22,6 +25,7 @@ Definition plop : P lop :=
   else if t =? 5 then (c <- pz ;; l <- pbool ;; ret (LFailOpen c l))
   else if t =? 6 then (h <- pz ;; c <- pz ;; l <- pbool ;; ret (LExtOpen h c l))
   else if t =? 7 then (h <- pz ;; c <- pz ;; l <- pbool ;; ret (LScanFail h c l))
+  else if t =? 8 then (h <- pz ;; cs <- pzs ;; us <- pzs ;; l <- pbool ;; ret (LCloseRace h cs us l))
   else (fun _ => None).
 
 (** a complete open attempt of the model: try the lock, then scan (which succeeds) *)
@@ -73,6 +77,17 @@ Fixpoint lcheck (s : lstate) (i : Z) (ops : list lop) : list Z :=
             let s1 := fold_left (fun s hc => fst (model_open s (fst hc))) winners s in
             let s2 := fold_left (fun s hc => if snd hc =? 0 then s else fst (model_open s (fst hc))) (combine hs codes) s1 in
             lcheck s2 (i + 1) t
+      | LCloseRace h closes uses la =>
+          (* whatever the interleaving: Close takes effect exactly once (one nil, every other call the
+             "closed" error, none if the handle was closed before), every racing operation either
+             succeeds or fails with the "closed" error, nothing panics, and the lock ends released *)
+          let '(s', c) := model_close s h in
+          let nok := length (filter (fun x => x =? 0) closes) in
+          let expected := if c =? 0 then 1%nat else 0%nat in
+          if (nok =? expected)%nat && forallb (fun x => (x =? 0) || (x =? 3)) closes &&
+             forallb (fun x => (x =? 3) || ((c =? 0) && (x =? 0))) uses && Bool.eqb (lock s') la
+          then lcheck s' (i + 1) t
+          else v_violation [i; Z.of_nat nok; if lock s' then 1 else 0]
       | LFailOpen code lockleft =>
           if negb (code =? 0) && negb lockleft then lcheck s (i + 1) t else v_violation [i; code]
       end
